@@ -78,6 +78,10 @@ CHECKS = {
                 technique="bounded-exhaustive enumeration of definition closures, each compiled twice in separate processes (differential), combined-YAML round trip through the CLI, regenerated-vs-shipped core definitions",
                 text="Closures of the C15 program space, the extra programs and packed C04-style programs are compiled twice in separate processes with different PYTHONHASHSEED, working directory, source and output paths, with the real black: all six outputs byte-identical; the combined YAML is recompiled through the command line and must give the same ids, hashes, sizes, layouts and constants; core_defs.yaml compiled with the current tree must reproduce the shipped core_defs.py (signature and text apart from the version stamps).",
                 note="Known finding (open): combined YAML of closures with cross-file alias-of-struct / struct-uses-message references does not recompile (section order)."),
+    "C17": dict(engine="THX", level="model_checking", ref="DESIGN.md 4/C17",
+                technique="stateless schedule exploration of the real two-thread data logger under a controlled scheduler: all interleavings at synchronisation/method-boundary granularity (DFS with state-hash pruning) and line-level interleavings with bounded preemptions",
+                text="Driver scripts (every operation sequence up to length 3-4 over updates before/after the flush and subdivision deadlines, update(None), pause, resume; data-set configurations; raw/json/quicklogger formatters) run on the real DataCollection with its writer thread; every interleaving of Event operations, thread start/exit/join and DataSet/formatter method boundaries is executed, plus all source-line-level interleavings with 1-3 preemptions on the scripts that can have a write pending; after stop() the files are read back (quicklogger through the package's QLReader) and compared with the hand-over sequence; deadlock, livelock and thread exceptions are violations.",
+                note="Trusted: CPython GIL (a source line is the finest unit), the blocking model of timed waits (DESIGN 3.4), the state hash used for pruning (thread positions + shared state; over-fine is harmless)."),
 }
 
 ALL = [f"C{i:02d}" for i in range(1, 20)]
@@ -115,6 +119,10 @@ def main():
         "engines": [
             {"name": "NET", "path": "vf/net.py", "serves_properties": ["C01", "C02", "C03", "C05", "C06", "C07", "C08", "C13", "C14", "C18", "C19"], "kind_free_text": "virtual TCP sockets/select/clock, conformance-checked against real loopback"},
             {"name": "MMX", "path": "vf/mmx.py", "serves_properties": ["C01", "C03", "C05", "C06", "C07", "C14", "C18", "C19"], "kind_free_text": "real MessageManager.run() stepped round by round on a helper thread"},
+            {"name": "CLX", "path": "vf/clx.py", "serves_properties": ["C02", "C06", "C08", "C13"], "kind_free_text": "the real pyrtma Client on the virtual network (against the stepped manager or a scripted stream)"},
+            {"name": "THX", "path": "vf/thx.py", "serves_properties": ["C17"], "kind_free_text": "cooperative scheduler for the data-logger threads (Event/Thread seams, optional sys.settrace line points)"},
+            {"name": "DEFX", "path": "vf/defx.py", "serves_properties": ["C04", "C11", "C12", "C13", "C15", "C16"], "kind_free_text": "definition-program generator and observers (Python import, gcc probe, node dump, MATLAB-subset interpreter, parser model)"},
+            {"name": "VALX", "path": "vf/valx.py", "serves_properties": ["C09", "C10"], "kind_free_text": "generated definition file with every validator kind; value/assignment-form enumeration"},
             {"name": "SPEC", "path": "vf/spec.py", "serves_properties": ["C01", "C06", "C07", "C14", "C19"], "kind_free_text": "reference hub executed in lock step (vf/lock.py), BFS in vf/hub.py"},
         ],
         "checks": checks,
